@@ -49,6 +49,7 @@ class CmdRec(object):
         self.fired_stage = None      # 'submit' | 'deliver' | 'loss' | ...
         self.occ = 0                 # number of earlier submissions with the same command text
         self.line_chunks = []
+        self.refused = False         # the API refused the text synchronously (spec "may_refuse")
 
 
 class Session(object):
@@ -200,7 +201,7 @@ class Session(object):
         spec = rec.spec
         self.submit_order.append(rec.idx)
         c = spec["cmd"]
-        cb = c if isinstance(c, bytes) else c.encode("ascii")
+        cb = c if isinstance(c, bytes) else c.encode("utf-8")      # == ascii for every ASCII text
         rec.occ = self.submitted_texts.count(cb)
         self.submitted_texts.append(cb)
         if spec.get("reply") is not None:
@@ -224,6 +225,11 @@ class Session(object):
                 d = self.proto.queue_command(spec["cmd"])
         except Exception as e:
             rec.submit_exc = e
+            if spec.get("may_refuse") and isinstance(e, UnicodeError):
+                # a text the API may legitimately refuse synchronously (e.g. non-ASCII): the
+                # property module judges that nothing was left behind
+                rec.refused = True
+                return
             self.exceptions.append(("submit", self.chunk_no, repr(e)))
             return
         rec.deferred = d
@@ -362,7 +368,7 @@ class Session(object):
 
     def line_index(self, cmd, occ=0):
         """position (in arrival order at the server) of the occ-th arrival of command line `cmd`, or None"""
-        b = cmd if isinstance(cmd, bytes) else cmd.encode("ascii")
+        b = cmd if isinstance(cmd, bytes) else cmd.encode("utf-8")
         for i, l in enumerate(self.server_lines):
             if l == b:
                 if occ == 0:
